@@ -18,7 +18,7 @@ ASSUMPTIONS = [
 
 _items = st.one_of(
   st.integers(-5, 5), st.none(), st.text(max_size=2), st.booleans(),
-  st.tuples(st.integers(0, 3), st.integers(0, 3)), st.floats(allow_nan=False, width=16))
+  st.tuples(st.integers(0, 3), st.integers(0, 3)), st.integers(-64, 64).map(lambda v: v / 8.))
 _pad = st.one_of(st.none(), st.integers(-3, 3), st.just("PAD"), st.just(0.), st.tuples())
 
 
@@ -151,7 +151,7 @@ def grid(tier, shard, nshards):
 
 
 CLAUSES = [
-  Clause("blocks", strat_blocks, run_blocks, quick=8000, thorough=200000,
+  Clause("blocks", strat_blocks, run_blocks, quick=8000, thorough=200000, fuzz={"thorough": 160000},
          floors={"hop<size": .1, "hop>size": .1, "hop=size": .03, "padded tail": .1},
          doc="blocks()/Stream.blocks() vs blocks_ref on heterogeneous items"),
   Clause("zero_pad", strat_pad, run_pad, quick=1500, thorough=20000,
